@@ -44,7 +44,7 @@ def run_one(args):
 def main(argv):
     props = check.PROPS
     jobs = 16
-    kinds = ['T1', 'T2', 'T3', 'T4', 'T5', 'T6', 'T7', 'T8', 'T9', 'T10', 'T11', 'T12', 'T13', 'T14', 'T15']
+    kinds = ['T1', 'T2', 'T3', 'T4', 'T5', 'T6', 'T7', 'T8', 'T9', 'T10', 'T11', 'T12', 'T13', 'T14', 'T15', 'T16', 'T17']
     if '--props' in argv:
         props = argv[argv.index('--props') + 1].split(',')
     if '--jobs' in argv:
